@@ -316,8 +316,8 @@ def splitTop : List Char → Nat → List Char → Option (List (List Char))
 /-- `int(label)` / `labels.index(label)`; both raise `ValueError` (a negative index too). -/
 def labelIndex (labels : Option (List (List Char))) (l : List Char) : Except Err Nat :=
   match labels with
-  | none => match (String.ofList l).toNat? with
-    | some i => .ok i
+  | none => match (String.ofList l).toInt? with      -- `int("-0")` is 0; a negative index is refused
+    | some z => if z < 0 then .error .valueError else .ok z.toNat
     | none => .error .valueError
   | some ls => match ls.findIdx? (· = l) with
     | some i => .ok i
